@@ -301,6 +301,35 @@ def run_isa(hv, binfile, inputs, maxsteps, layout=None, timeout=900):
     return res, ''
 
 
+MEMORY_WORDS = 200000
+
+
+def capacity_rejection_is_right(xcmp, d, name, timeout=60):
+    """xcmp says the program does not fit in memory.  Independent check: array lengths do not influence the code, so
+    the same program with every (literal) array length replaced by 1 compiles to an image of the same number of words;
+    the rejection is right iff that image + the declared array cells + the 3 words reserved above the stack pointer
+    exceed the 200000-word memory.  Anything else (a non-literal length, the shrunk program rejected too) is not
+    accepted as a capacity rejection."""
+    try:
+        src = open(os.path.join(d, name), 'rb').read().decode('latin-1')
+    except OSError:
+        return False
+    decls = re.findall(r'\barray\s+\w+\s*\[\s*([^\]]*?)\s*\]', src)
+    if not decls or not all(re.fullmatch(r'\d+', x) for x in decls):
+        return False
+    cells = sum(int(x) for x in decls)
+    shrunk = re.sub(r'(\barray\s+\w+\s*\[)\s*\d+\s*(\])', r'\g<1>1\2', src)
+    sd = os.path.join(d, 'capacity_probe')
+    os.makedirs(sd, exist_ok=True)
+    open(os.path.join(sd, 'p.x'), 'wb').write(shrunk.encode('latin-1'))
+    rc, out, err = _run([xcmp, 'p.x'], sd, timeout=timeout)
+    aout = os.path.join(sd, 'a.out')
+    if rc != 0 or not os.path.exists(aout):
+        return False
+    words = int.from_bytes(open(aout, 'rb').read(4), 'little')
+    return words + cells + 3 > MEMORY_WORDS
+
+
 def compile_x(xcmp, d, name='prog.x', timeout=60):
     """run the real xcmp in the private directory d; -> (status, detail) status in ok crash diagnostic timeout nofile"""
     aout = os.path.join(d, 'a.out')
@@ -312,7 +341,10 @@ def compile_x(xcmp, d, name='prog.x', timeout=60):
     if rc < 0:
         return 'crash', 'xcmp killed by signal %d %s' % (-rc, err[-200:].decode('latin-1'))
     if rc != 0:
-        return 'diagnostic', 'xcmp rc=%d %s' % (rc, (out + err)[-300:].decode('latin-1'))
+        text = (out + err)[-300:].decode('latin-1')
+        if 'not fit in memory' in text and capacity_rejection_is_right(xcmp, d, name, timeout):
+            return 'capacity', 'xcmp rc=%d %s (checked: image + global arrays + reserved words exceed the memory)' % (rc, text)
+        return 'diagnostic', 'xcmp rc=%d %s' % (rc, text)
     if not os.path.exists(aout):
         return 'nofile', 'xcmp rc=0 but wrote no a.out'
     return 'ok', ''
@@ -380,6 +412,9 @@ def evaluate(tools, d, prog, inputs, steps=20000, depth=300, maxisa=3000000, wan
         return r
     status, detail = compile_x(tools.xcmp, d)
     r['status'] = status
+    if status == 'capacity':
+        r['capacity_rejected'] = detail       # the program does not fit the machine: rejected, rightly (checked); nothing to run
+        return r
     if status != 'ok':
         r['findings'].append(('compile-' + status, good[0], detail))
         return r
